@@ -19,7 +19,8 @@
    Common shape.  After apply_style d st0 sty = Ok (st, ps) the stack is tp :: rest (tp the top
    sub-renderer, width W = swidth_ tp).  The children are rendered BY THE SAME FUNCTION from the
    state  mkrst [new_sub_renderer tp w] (links st)  -- one fresh sub-renderer, alone on the
-   stack, with tp's options and annotation stack, and the links collected so far -- where
+   stack, with tp's options, annotation stack, strikeout-filter depth, preformatted depth and
+   white-space mode stack (no lines, no pending text), and the links collected so far -- where
    width_minus tp p mn = Ok w, p = the display width of the prefix (`nested`; by
    `width_minus_spec`, w = max (W - p) mn, and w = W - p <= W when overflow is not allowed).
    That run ends in  mkrst [sub] lk'  with sub_into_lines sub = Ok ols.  Then
@@ -827,8 +828,8 @@ Qed.
 Lemma nested_ctx body tp tp' lk p mn sub lk' ols :
   same_ctx tp tp' -> nested body tp' lk p mn sub lk' ols -> nested body tp lk p mn sub lk' ols.
 Proof.
-  intros (c1 & c2 & c3 & _) (w & A & B & C). exists w.
-  unfold width_minus, new_sub_renderer in *. rewrite c1, c2, c3 in *. auto.
+  intros (c1 & c2 & c3 & _ & c5 & c6 & c7) (w & A & B & C). exists w.
+  unfold width_minus, new_sub_renderer in *. rewrite c1, c2, c3, c5, c6, c7 in *. auto.
 Qed.
 
 Lemma scope_inv body (Hb : framed body) st tp rest p mn {C} (k : subr * rstate -> res C) r :
